@@ -188,3 +188,9 @@ func NewRec(log *EventLog, id, kind int) Writer {
 
 // ErrInjected is the error returned by failing writers.
 var ErrInjected = errors.New("injected write failure")
+
+// ValueWriter is a writer of a VALUE type (a small struct passed by value, like an adapter type or a func-to-writer
+// shim in user code): two copies made from the same recorder are equal, none of them is a pointer.
+type ValueWriter struct{ W Writer }
+
+func (v ValueWriter) Write(p []byte) (int, error) { return v.W.Write(p) }
